@@ -89,6 +89,10 @@ var c16Contexts = []ctxTemplate{
 	{"or-chain-head-150", "SELECT a FROM t WHERE ({C})" + strings.Repeat(" OR b = 2", 150)},
 	{"and-chain-middle-300", "SELECT a FROM t WHERE c = 1" + strings.Repeat(" AND b = 2", 150) + " AND ({C})" + strings.Repeat(" AND b = 2", 150)},
 	{"deep-nesting", "SELECT a FROM t WHERE a IN (SELECT b FROM (SELECT b FROM u WHERE EXISTS (SELECT 1 FROM v WHERE {C})) z)"},
+	{"derived-tower-60", strings.Repeat("SELECT a FROM (", 60) + "SELECT a FROM t WHERE {C}" + strings.Repeat(") z", 60)},
+	{"subquery-tower-40", strings.Repeat("SELECT a FROM t WHERE a = (", 40) + "SELECT a FROM t WHERE {C}" + strings.Repeat(")", 40)},
+	{"paren-tower-60", "SELECT a FROM t WHERE " + strings.Repeat("(", 60) + "{C}" + strings.Repeat(")", 60)},
+	{"case-tower-40", "SELECT " + strings.Repeat("CASE WHEN b = 1 THEN 1 ELSE ", 40) + "CASE WHEN {C} THEN 1 ELSE 0 END" + strings.Repeat(" END", 40) + " FROM t"},
 	{"intersect-left", "SELECT a FROM t WHERE {C} INTERSECT SELECT a FROM u"},
 	{"intersect-right", "SELECT a FROM t INTERSECT SELECT a FROM u WHERE {C}"},
 	{"except-left", "SELECT a FROM t WHERE {C} EXCEPT SELECT a FROM u"},
